@@ -8,6 +8,15 @@ VARIANTS = ["native", "noasm", "generic"]
 def exe(v):
     return os.path.join(build.build(v), "h_c14")
 
+META = {
+    "engine": "E-shape", "level": "exploration",
+    "technique": "exhaustive bounded enumeration of input shapes on the real code vs reference model (bounded model checking of the input space by explicit enumeration)",
+    "text": "Every length 0..130 and every operand family named in the property (each single bit, each byte, every carry/borrow "
+            "run (start,length), all 1-byte pairs, 2-byte pairs) is executed on the real helpers in three builds and compared "
+            "with a schoolbook reference; the space is finite and walked completely, so within the bound nothing is sampled.",
+    "note": "Trusted: the byte-wise reference in harness/c14.c, gcc's code for it. Not covered: operand contents outside the families, lengths > 130 (memzero to 4400).",
+}
+
 
 def prepare(tier):
     for v in VARIANTS:
